@@ -29,6 +29,12 @@ Print Assumptions C08_bezout.
 Theorem C08_normal_form_and_zero : forall T (D : Dom T), FieldOK D -> Normal_stmt D.
 Proof. exact (@Normal_ok). Qed.
 Print Assumptions C08_normal_form_and_zero.
+Theorem C08_add_sub_value_and_normal_form : forall T (D : Dom T), FieldOK D -> AddSub_stmt D.
+Proof. exact (@AddSub_ok). Qed.
+Print Assumptions C08_add_sub_value_and_normal_form.
+Theorem C08_raw_add_normal_refuted : ~ RawAddNormal_stmt GF2Dom.
+Proof. exact RawAddNormal_refuted. Qed.
+Print Assumptions C08_raw_add_normal_refuted.
 Theorem C08_hypotheses_satisfiable : FieldOK GF2Dom.
 Proof. exact GF2_ok. Qed.
 Print Assumptions C08_hypotheses_satisfiable.
